@@ -1,7 +1,7 @@
 //! C19: the built `wac` binary against in-process library calls.
 //!
-//! The binary is built from `$WACV_REPO` (cargo, offline, default features, into
-//! `$WACV_TARGET/c19-wac`) and run in a scratch directory over all combinations of the documented
+//! The binary is built from `$WACV_REPO` (cargo, offline, `--no-default-features --features wit`,
+//! into `$WACV_TARGET/c19-wac`, by `--prebuild 1`) and run in a scratch directory over all combinations of the documented
 //! flags of `compose` (x dependency-location variants x compositions that succeed or fail at each
 //! stage), `plug`, `targets` and `parse`.  For every run the harness also performs the library
 //! pipeline in-process — for `compose` once per choice of `EncodeOptions` (define_components x
@@ -157,6 +157,8 @@ impl Ctx {
             .env("XDG_CONFIG_HOME", cwd.join(".config"))
             .env("XDG_CACHE_HOME", cwd.join(".cache"))
             .env("NO_COLOR", "1")
+            // fewer runtime threads to spawn per process on a loaded machine (environment only)
+            .env("TOKIO_WORKER_THREADS", "2")
             .env_remove("RUST_LOG")
             .env_remove("RUST_BACKTRACE")
             .stdin(std::process::Stdio::null())
@@ -302,58 +304,36 @@ fn main() {
         eprintln!("c19: WACV_REPO / WACV_VERIF / WACV_TARGET must be set (run through ./check)");
         std::process::exit(2);
     };
-    // build the real binary (default features, as installed by `cargo install wac-cli`).  Only
-    // shard 0 runs cargo (a no-op build still takes ~10 s to fingerprint 450 crates); the other
-    // shards of the same runner invocation wait for its marker file.
+    // The real binary, built from the repository under test into `$WACV_TARGET/c19-wac` with
+    // `--no-default-features --features wit`: the default features minus `registry`.  The
+    // registry feature only adds the `--registry URL` option and the registry fallback for
+    // packages that are not found locally — neither is exercised here (there is no registry in
+    // the sandbox) — and leaving it out avoids compiling the Warg client tree.
+    // Built by `--prebuild 1`; a normal run only checks the source stamp.
     let tdir = PathBuf::from(&env.target).join("c19-wac");
-    fs::create_dir_all(&tdir).ok();
-    let marker = tdir.join(format!("built-by-runner-{}", std::os::unix::process::parent_id()));
-    if shard == 0 || nshards == 1 {
-        let st = Command::new("cargo")
-            .args(["build", "--offline", "--quiet", "-j", "6", "--bin", "wac", "--manifest-path"])
-            .arg(PathBuf::from(&env.repo).join("Cargo.toml"))
-            .arg("--target-dir")
-            .arg(&tdir)
-            .env("CARGO_NET_OFFLINE", "true")
-            .env_remove("RUSTFLAGS")
-            .output()
-            .expect("cargo");
-        if !st.status.success() {
-            fs::write(&marker, "failed").ok();
-            eprintln!("c19: building the wac binary failed:\n{}", String::from_utf8_lossy(&st.stderr));
-            std::process::exit(3);
-        }
-        // markers of earlier invocations are stale
-        if let Ok(rd) = fs::read_dir(&tdir) {
-            for e in rd.flatten() {
-                if e.file_name().to_string_lossy().starts_with("built-by-runner-") {
-                    fs::remove_file(e.path()).ok();
-                }
-            }
-        }
-        fs::write(&marker, "ok").ok();
-    } else {
-        let t0 = std::time::Instant::now();
-        loop {
-            match fs::read_to_string(&marker).ok().as_deref() {
-                Some("ok") => break,
-                Some(_) => {
-                    eprintln!("c19: shard 0 could not build the wac binary");
-                    std::process::exit(3);
-                }
-                None => {}
-            }
-            if t0.elapsed().as_secs() > 3000 {
-                eprintln!("c19: timed out waiting for shard 0 to build the wac binary");
-                std::process::exit(3);
-            }
-            std::thread::sleep(std::time::Duration::from_millis(300));
-        }
+    let wac_bin = tdir.join("debug/wac");
+    let stamp = small_util::source_stamp(&small_util::repo_sources(&env, true), "wac --no-default-features --features wit");
+    let (repo, tdir2) = (env.repo.clone(), tdir.clone());
+    let built = small_util::ensure_built(&PathBuf::from(&env.target), "c19-wac", &stamp, &[wac_bin.clone()], move || {
+        let manifest = PathBuf::from(&repo).join("Cargo.toml");
+        small_util::cargo(
+            Path::new(&repo),
+            &tdir2,
+            &["--bin", "wac", "--no-default-features", "--features", "wit", "--manifest-path", &manifest.to_string_lossy()],
+            None,
+        )
+    });
+    if let Err(e) = built {
+        eprintln!("c19: building the wac binary failed:\n{e}");
+        std::process::exit(3);
+    }
+    if args.extra.contains_key("prebuild") {
+        return;
     }
     let scratch = small_util::scratch_base().join(format!("c19-{}-{}", std::process::id(), shard));
     let _ = fs::remove_dir_all(&scratch);
     fs::create_dir_all(&scratch).unwrap();
-    let mut ctx = Ctx { wac: tdir.join("debug/wac"), scratch: scratch.clone(), intern: Intern::default(), n: 0 };
+    let mut ctx = Ctx { wac: wac_bin.clone(), scratch: scratch.clone(), intern: Intern::default(), n: 0 };
     let mut out = Out::create(&args.out, &format!("c19-s{shard}-"));
     let mut r = Rng::new(args.seed ^ 0xC19);
     let thorough = args.thorough();
@@ -417,7 +397,12 @@ fn main() {
                 // the other dependency-location variants (every combination still occurs for
                 // every variant across the compositions); thorough and replay: everything
                 let fails_early = matches!(clabel, "parse-error" | "unknown-package" | "resolve-error" | "missing-argument");
-                let keep_every = if v.label == "default-dir" { 1 } else if fails_early { 16 } else { 4 };
+                let keep_every = match (v.label == "default-dir", fails_early) {
+                    (true, false) => 1,
+                    (true, true) => 2,
+                    (false, false) => 4,
+                    (false, true) => 16,
+                };
                 let sampled = !thorough && replay_tags.is_none() && (mask as usize + combo_no) % keep_every != 0;
                 let tag = format!("{clabel}|{}|{mask}|{}", v.label, source.len());
                 if !take || sampled || !wanted(&tag) {
